@@ -198,6 +198,18 @@ func runC10(c *Ctx) {
 						// for services the deprecated "to" is what must be contained
 						im.To = im.Subject
 						im.Subject = "local.name"
+					} else if kind == jwt.Stream && c.Rng.Intn(3) == 0 {
+						// for streams "to" is only the local name: the imported subject is what must be contained,
+						// whatever "to" says (here "to" is granted exactly when the subject is not, and vice versa)
+						if ok[4] {
+							im.To = "somewhere.else"
+						} else {
+							im.To = jwt.Subject(grant)
+						}
+					} else if kind == jwt.Service && c.Rng.Intn(4) == 0 && !ok[4] {
+						// a service import whose subject is granted but whose "to" is not
+						im.To = im.Subject
+						im.Subject = jwt.Subject(grant)
 					}
 					allOK := ok[0] && ok[1] && ok[2] && ok[3] && ok[4]
 					vr := jwt.CreateValidationResults()
